@@ -124,3 +124,70 @@ Proof.
   apply Ok_inj in H. inversion H; subst s' r' p2.
   split; [exact (open_parse_checked _ _ _ E1)|exact (open_parse_checked _ _ _ E2)].
 Qed.
+
+(* ---- and conversely: every OPEN that passes OpenMessage's own check is accepted by the parser-based parse wherever it stands,
+   so the Peer Up faithful-decode theorem applies to every pair of checked OPENs *)
+Lemma param_parse_enc prm rest pos : param_ok prm ->
+  param_parse (mkP (enc_param prm ++ rest) pos) = Ok (length (snd (param_tv prm)), mkP rest (pos + (2 + length (snd (param_tv prm))))).
+Proof.
+  intros Hok. unfold param_parse, enc_param. cbn [List.app]. rewrite parse_u8_app. cbn [bind]. rewrite parse_u8_app. cbn [bind].
+  rewrite Nat2N.id.
+  assert (Htake : take (2 + length (snd (param_tv prm))) (mkP (fst (param_tv prm) :: N.of_nat (length (snd (param_tv prm))) :: snd (param_tv prm) ++ rest) pos)
+                  = Ok (fst (param_tv prm) :: N.of_nat (length (snd (param_tv prm))) :: snd (param_tv prm),
+                        mkP rest (pos + (2 + length (snd (param_tv prm)))))).
+  { change (fst (param_tv prm) :: N.of_nat (length (snd (param_tv prm))) :: snd (param_tv prm) ++ rest)
+      with ((fst (param_tv prm) :: N.of_nat (length (snd (param_tv prm))) :: snd (param_tv prm)) ++ rest).
+    apply take_app'. reflexivity. }
+  destruct prm as [cs|t v]; cbn [param_tv fst snd] in *.
+  - cbn [N.eqb Pos.eqb]. unfold parse_parser. rewrite take_app' by reflexivity. cbn [bind p_pos].
+    destruct (caps_walk_enc cs (S (remaining (mkP (flat_map enc_cap cs) (S (S pos))))) (S (S pos)) Hok) as [W _].
+    { unfold remaining. cbn [p_rest]. pose proof (caps_len cs). lia. }
+    rewrite W. cbn [bind]. rewrite Htake. reflexivity.
+  - destruct (N.eqb_spec t 2) as [E|E]; [contradiction|]. rewrite Htake. reflexivity.
+Qed.
+
+Lemma open_params_enc : forall ps fuel rest pos, Forall param_ok ps -> (length ps < fuel)%nat ->
+  open_params fuel (length (flat_map enc_param ps)) (mkP (flat_map enc_param ps ++ rest) pos) =
+  Ok (mkP rest (pos + length (flat_map enc_param ps))).
+Proof.
+  induction ps as [|prm ps IH]; intros fuel rest pos Hok Hf; (destruct fuel as [|f]; [lia|]); cbn [open_params flat_map length].
+  - cbn [Nat.eqb List.app]. now rewrite Nat.add_0_r.
+  - inversion Hok as [|? ? Hp Hps]; subst. rewrite app_length, enc_param_len.
+    set (lv := length (snd (param_tv prm))). set (lr := length (flat_map enc_param ps)).
+    assert (Hz : Nat.eqb (2 + lv + lr) 0 = false) by (apply Nat.eqb_neq; lia). rewrite Hz.
+    rewrite <- app_assoc, (param_parse_enc prm _ pos Hp). cbn [bind]. fold lv.
+    assert (Hlt : Nat.ltb (2 + lv + lr) (2 + lv) = false) by (apply Nat.ltb_ge; lia). rewrite Hlt.
+    replace (2 + lv + lr - (2 + lv))%nat with lr by lia. unfold lr.
+    rewrite IH by (try exact Hps; cbn in Hf; lia). f_equal. f_equal. unfold lv. lia.
+Qed.
+
+Lemma open_bytes_length hi lo t ver a1 a2 h1 h2 id ps : length id = 4%nat ->
+  length (open_bytes hi lo t ver a1 a2 h1 h2 id ps) = (29 + length (flat_map enc_param ps))%nat.
+Proof. intros Hid. unfold open_bytes, marker. rewrite !app_length, repeat_length, Hid. cbn [length]. lia. Qed.
+
+Lemma open_ok_of_check o : open_check o = Ok tt -> open_ok o.
+Proof.
+  intros H rest pos.
+  destruct (open_accept_struct o H) as (hi & lo & t & ver & a1 & a2 & h1 & h2 & id & ps & -> & Hid & Hok & Hl).
+  pose proof (open_bytes_length hi lo t ver a1 a2 h1 h2 id ps Hid) as L. rewrite L in Hl.
+  unfold open_parse, header_parse, open_bytes. rewrite <- !app_assoc. rewrite marker_check_app'. cbn [bind].
+  cbn [List.app]. unfold parse_u16, parse_be.
+  change (hi :: lo :: t :: ver :: a1 :: a2 :: h1 :: h2 :: id ++ N.of_nat (length (flat_map enc_param ps)) :: flat_map enc_param ps ++ rest)
+    with ([hi; lo] ++ t :: ver :: a1 :: a2 :: h1 :: h2 :: id ++ N.of_nat (length (flat_map enc_param ps)) :: flat_map enc_param ps ++ rest).
+  rewrite take_app' by reflexivity. cbn [bind]. rewrite parse_u8_app. cbn [bind].
+  change (ver :: a1 :: a2 :: h1 :: h2 :: id ++ N.of_nat (length (flat_map enc_param ps)) :: flat_map enc_param ps ++ rest)
+    with (([ver; a1; a2; h1; h2] ++ id) ++ N.of_nat (length (flat_map enc_param ps)) :: flat_map enc_param ps ++ rest).
+  rewrite adv_app by (rewrite app_length, Hid; reflexivity). cbn [bind]. rewrite parse_u8_app. cbn [bind]. rewrite Nat2N.id.
+  unfold remaining. cbn [p_rest]. rewrite app_length.
+  assert (Hge : Nat.ltb (length (flat_map enc_param ps) + length rest) (length (flat_map enc_param ps)) = false) by (apply Nat.ltb_ge; lia).
+  rewrite Hge.
+  rewrite open_params_enc by (try exact Hok; pose proof (params_len ps); lia). cbn [bind p_pos].
+  change (unbe [hi; lo]) with ((0 * 256 + hi) * 256 + lo). replace ((0 * 256 + hi) * 256 + lo) with (hi * 256 + lo) by lia.
+  assert (Heq : Nat.eqb (S (S (pos + 16 + 2) + 9) + length (flat_map enc_param ps) - pos) (N.to_nat (hi * 256 + lo)) = true)
+    by (apply Nat.eqb_eq; lia).
+  rewrite Heq. cbn [negb]. rewrite Hl.
+  replace (marker ++ [hi; lo] ++ t :: ([ver; a1; a2; h1; h2] ++ id) ++ N.of_nat (length (flat_map enc_param ps)) :: flat_map enc_param ps ++ rest)
+    with (open_bytes hi lo t ver a1 a2 h1 h2 id ps ++ rest)
+    by (unfold open_bytes; repeat (cbn [List.app]; rewrite <- ?app_assoc); reflexivity).
+  rewrite <- L. apply take_app.
+Qed.
